@@ -25,11 +25,14 @@ pub struct GrowCase {
     stack_size: usize,
     /// panic when this many levels are left (None = no panic)
     panic_left: Option<usize>,
+    /// at every level, before descending, a side call through the growth point that returns
+    /// (tree-shaped recursion: a growth that has ended is followed by further growth decisions)
+    comb: bool,
 }
 
 impl GrowCase {
     fn to_json(&self) -> Value {
-        json!({"caller": if self.coroutine { "coroutine" } else { "thread" }, "depth": self.depth, "frame_kb": self.frame_kb, "red_zone": self.red_zone, "stack_size": self.stack_size, "panic_with_levels_left": self.panic_left})
+        json!({"caller": if self.coroutine { "coroutine" } else { "thread" }, "depth": self.depth, "frame_kb": self.frame_kb, "red_zone": self.red_zone, "stack_size": self.stack_size, "panic_with_levels_left": self.panic_left, "side_call_at_every_level": self.comb})
     }
     fn from_json(v: &Value) -> Option<GrowCase> {
         Some(GrowCase {
@@ -39,6 +42,7 @@ impl GrowCase {
             red_zone: v.get("red_zone")?.as_u64()? as usize,
             stack_size: v.get("stack_size")?.as_u64()? as usize,
             panic_left: v.get("panic_with_levels_left").and_then(Value::as_u64).map(|x| x as usize),
+            comb: v.get("side_call_at_every_level").and_then(Value::as_bool).unwrap_or(false),
         })
     }
 }
@@ -65,24 +69,47 @@ fn note_room(red_zone: usize) {
     let _ = red_zone;
 }
 
-fn recurse<const KB: usize>(left: usize, red: usize, size: usize, panic_left: Option<usize>) -> usize {
-    let r = SchedulableCoroutine::maybe_grow_with(red, size, || {
-        let mut buf = [0u8; KB];
-        buf[0] = left as u8;
-        let _ = black_box(&mut buf);
-        note_room(red);
-        if panic_left == Some(left) {
-            panic!("planned panic in a grown callback");
-        }
-        let below = if left > 0 { recurse::<KB>(left - 1, red, size, panic_left) } else { 0 };
-        below + 1 + usize::from(black_box(buf[0]) == 255 && left == 0)
-    });
-    r.expect("stack allocation failed")
+// The frames are kept in functions of their own that are never inlined: a callback that runs in
+// place could otherwise be merged into its caller and double the caller's frame behind the
+// harness' back (the red zone a case asks for is sized for ONE frame between growth points).
+#[inline(never)]
+fn side_body<const KB: usize>(red: usize) -> usize {
+    let mut buf = [7u8; KB];
+    let _ = black_box(&mut buf);
+    note_room(red);
+    usize::from(black_box(buf[KB / 2]) == 7)
+}
+
+#[inline(never)]
+fn side<const KB: usize>(red: usize, size: usize) -> usize {
+    SchedulableCoroutine::maybe_grow_with(red, size, || side_body::<KB>(red)).expect("stack allocation failed")
+}
+
+#[inline(never)]
+fn level<const KB: usize>(left: usize, red: usize, size: usize, panic_left: Option<usize>, comb: bool) -> usize {
+    // this frame stays live while the recursion goes deeper
+    let mut buf = [0u8; KB];
+    buf[0] = left as u8;
+    let _ = black_box(&mut buf);
+    note_room(red);
+    if panic_left == Some(left) {
+        panic!("planned panic in a grown callback");
+    }
+    if comb && 1 != side::<KB>(red, size) {
+        return usize::MAX / 2;
+    }
+    let below = if left > 0 { recurse::<KB>(left - 1, red, size, panic_left, comb) } else { 0 };
+    below + 1 + usize::from(black_box(buf[0]) == 255 && left == 0)
+}
+
+#[inline(never)]
+fn recurse<const KB: usize>(left: usize, red: usize, size: usize, panic_left: Option<usize>, comb: bool) -> usize {
+    SchedulableCoroutine::maybe_grow_with(red, size, || level::<KB>(left, red, size, panic_left, comb)).expect("stack allocation failed")
 }
 
 fn go(c: &GrowCase, left: usize, panic_left: Option<usize>) -> usize {
     let red = if c.red_zone == 0 { open_coroutine_core::common::default_red_zone() } else { c.red_zone };
-    if c.frame_kb >= 10 { recurse::<10240>(left, red, c.stack_size, panic_left) } else { recurse::<1024>(left, red, c.stack_size, panic_left) }
+    if c.frame_kb >= 10 { recurse::<10240>(left, red, c.stack_size, panic_left, c.comb) } else { recurse::<1024>(left, red, c.stack_size, panic_left, c.comb) }
 }
 
 pub fn exec_grow(c: &GrowCase, em: &mut Emitter) {
@@ -132,7 +159,7 @@ pub fn exec_grow(c: &GrowCase, em: &mut Emitter) {
 pub fn judge_grow(c: &GrowCase, res: &ChildResult, rep: &mut Report) {
     let replay = || json!({"engine":"seqx","scenario":"stk.grow","case":c.to_json()});
     let who = if c.coroutine { "coroutine" } else { "thread" };
-    let pclass = if c.panic_left.is_some() { "after-caught-panic" } else { "no-panic" };
+    let pclass = match (c.panic_left.is_some(), c.comb) { (true, false) => "after-caught-panic", (false, false) => "no-panic", (true, true) => "after-caught-panic:side-calls", (false, true) => "no-panic:side-calls" };
     if !res.exit.ok() {
         rep.violation(&format!("stk.grow/deep-recursion-keeps-working/{who}:{pclass}:{}", res.exit.describe()), format!("{}: the process {}", c.to_json(), res.exit.describe()), replay());
         return;
@@ -199,7 +226,14 @@ pub fn grow_cases(tier: &str) -> Vec<GrowCase> {
                     let mut pl = vec![None, Some(0), Some(*depth / 2), Some(*depth)];
                     pl.dedup();
                     for panic_left in pl {
-                        v.push(GrowCase { coroutine, depth: *depth, frame_kb, red_zone, stack_size, panic_left });
+                        // raising and unwinding a panic needs stack of its own (the unwinder's DWARF
+                        // machinery): a caller whose callback may panic has to ask for that much more
+                        if panic_left.is_some() && frame_kb * 1024 + 40 * 1024 > red_zone {
+                            continue;
+                        }
+                        for comb in [false, true] {
+                            v.push(GrowCase { coroutine, depth: *depth, frame_kb, red_zone, stack_size, panic_left, comb });
+                        }
                     }
                 }
             }
